@@ -66,6 +66,14 @@ Proof.
   symmetry. apply (Hpar _ ltac:(lia) Hst).
 Qed.
 
+Lemma reorg_justified' : forall p ln lh ps segs f,
+  W c BPh p -> pos_of c HPh HDh p ln lh -> Gh (RGet ps) (RSegs segs) -> In f (concat (map seg_blocks segs)) ->
+  b_num f = ln + 1 -> b_parent f <> 0 -> lh <> b_parent f -> RJh p.
+Proof.
+  intros p ln lh ps segs f Hw Hpos Hg Hin. apply (reorg_justified p ln lh f Hw Hpos).
+  pose proof (Gh_bp ps segs Hg) as Hb. rewrite Forall_forall in Hb. apply Hb. exact Hin.
+Qed.
+
 Lemma K_inv : forall g d0 x, Inv c True BPh HPh HDh RJh g (outside c d0) d0 x -> TaskInvH c H x.
 Proof.
   intros g d0 x (_ & [(p & _ & [Hwp Hbp] & E)|(p & bs & _ & _ & [Hwp Hbp] & E)] & _);
@@ -80,7 +88,7 @@ Lemma hist_all : forall g d s,
   /\ TaskInvH c H (r_db (step c s d)).
 Proof.
   intros g d s Hpv Hw Hon Ht.
-  destruct (step_all c Gh (fun _ => True) True BPh HPh HDh RJh Hc Gh_ok Gh_bp Gh_hp Gh_hd (fun _ _ => I) reorg_justified g d s Hpv
+  destruct (step_all c Gh (fun _ => True) True BPh HPh HDh RJh Hc Gh_ok Gh_bp Gh_hp Gh_hd (fun _ _ => I) reorg_justified' g d s Hpv
                      (conj Hw Hon) (Forall_True s) Ht) as (A & B & _).
   split; [|eapply K_inv; exact B]. eapply Forall_impl; [|exact A]. intros e. apply K_inv.
 Qed.
@@ -297,7 +305,7 @@ Lemma below_fork : forall p0 q0 d s,
 Proof.
   intros p0 q0 d s Hpv Hw Hon Hst Ht.
   destruct (step_all c (node_ans true H) (fun _ => True) True (in_history H) (HPh H) HDh (RJh H) Hc (Gh_ok H HH)
-                     (Gh_bp H HH) (Gh_hp H) (Gh_hd H) (fun _ _ => I) (reorg_justified c H HH)
+                     (Gh_bp H HH) (Gh_hp H) (Gh_hd H) (fun _ _ => I) (reorg_justified' c H HH)
                      (p0 ++ q0) d s Hpv (conj Hw Hon) (Forall_True s) Ht) as (A & B & _).
   assert (K : forall x, Inv c True (in_history H) (HPh H) HDh (RJh H) (p0 ++ q0) (outside c d) d x ->
                         exists q, pv c x = render c (p0 ++ q)).
